@@ -3,6 +3,9 @@
 import json, os
 HERE = os.path.dirname(os.path.dirname(os.path.abspath(__file__)))
 CHECKS = {
+ "C04": dict(cat="model_checking", technique="TLA+ positional carrier-map definition of simplify; TLC validates recorded simplify calls (input, samples, options, output, node map) on universe and random inputs",
+    text="TskSimplify defines, per position, the carrier of every input node and from it the expected output parent relation, retained node set, mutation placement, site/individual/population retention and flag rule for every option; real simplify calls over the TLC-enumerated universe and random larger inputs with sample lists of arbitrary nodes and random option combinations are validated by TLC; idempotence is evaluated by the harness and checked as a clause.",
+    note="Edges carry no metadata (simplify refuses it); rows are followed by metadata tags; non-idempotence under reduce_to_site_topology is a known finding.", ref="DESIGN.md §3 C04"),
  "C10": dict(cat="fault_enumeration", technique="TLA+ Kastore reader model with exact 64-bit arithmetic: TLC fault enumeration on abstract files; byte-level fault enumeration on real dumps (ASan build) validated by TLC through the layout function and Reader model",
     text="Kastore.tla transcribes the container layout and kastore's reader as validation steps over abstract files with exact unsigned 64-bit (limb) arithmetic. TLC enumerates, for all small well-formed files, every proper prefix and every interpreted-field substitution by boundary and wrap-around values and proves (bounded) that prefixes are always rejected and that accepted substitutions are exactly the characterised same-extent blind spots. On real dumps every prefix length, every header/descriptor/key byte x 4-7 substitutions, whole-field substitutions and random data bytes are injected and loaded (TableCollection.load, tskit.load, skip_tables, skip_reference_sequence, second object on a stream) in the sanitizer build in isolated workers; TLC validates each (layout, fault, outcome) against the layout classification and the Reader verdict.",
     note="Known findings (kastore has no integrity check beyond packing) are reported by semantic signature; reserved/padding/minor-version bytes may load an equal object; quick tier uses 2 files, thorough 12.", ref="DESIGN.md §3 C10"),
